@@ -57,9 +57,12 @@ claim("C10", PROOF,
 
 claim("C13", PROOF,
       "Proof over the Decoder type contract (ghost cursor dpos(d) over an abstract record sequence; a decoder fails only when exhausted): the round-robin decoder closure advances exactly one input by exactly one record in that input's own order and hands out that record, leaves every other input's cursor untouched, "
-      "and returns an error only when every input is exhausted (loop invariant over the rotation, with the modular-arithmetic lemmas rot_of_tried / rot_injective / mod_add_multiple discharged separately).",
-      "Trusted: go/ssa builder, govc, solvers; the Decoder type contract is ASSUMED for the library-backed gob/CSV/JSON decoders on valid inputs. Stated assumptions: fewer than 2^64 calls; decoder(files) passes at least one decoder (call sites in package main always have >= 1 file; not verified). "
-      "Not covered: the report/encode loops in package main (each decoded record added/encoded exactly once with a fresh Result), so the consequence for report output rests on C10's commutativity lemmas plus that unverified loop.",
+      "and returns an error only when every input is exhausted (loop invariant over the rotation, with the modular-arithmetic lemmas rot_of_tried / rot_injective / mod_add_multiple discharged separately). "
+      "The commands in package main are under contract too: decoder(files) builds exactly one non-nil decoder per file, each at its first record; the report and encode loops hand every record the decoder delivers to Report.Add / Encoder.Encode exactly once, in order and exactly as decoded "
+      "(the Decoder type contract only promises the exact record when the destination is the zero Result - encoding/gob leaves fields it has no data for untouched - so a reused destination fails the obligation), and finish without error only at the decoder's end of input unless interrupted by a signal.",
+      "Trusted: go/ssa builder, govc, solvers; the Decoder type contract is ASSUMED for the library-backed gob/CSV/JSON decoders on valid inputs, the Report/Closer/Reporter/Encoder type contracts for their implementations. Stated assumptions: fewer than 2^64 calls; os.Stdin/os.Stdout exist and are unread; "
+      "the round-robin closure is used by the commands through the Decoder type contract with its own cursor starting at 0 (assume round-robin-abstraction: the refinement 'own cursor = sum of the inputs' cursors' is argued in DESIGN, not proved). "
+      "Not covered: that the metrics are insensitive to the interleaving (rests on C10's commutativity lemmas), the command closures that default the file list to stdin (>= 1 file is a precondition).",
       "DESIGN.md 8/C13")
 
 claim("C19", PROOF,
@@ -108,7 +111,7 @@ claim("C09", PROOF,
 
 claim("C08", PROOF,
       "Proof over a stream-position model of the io readers (assumed contracts of bytes.Buffer/Reader, io.TeeReader, io.MultiReader with contiguity as precondition): in DecoderFor the buffer always holds exactly the bytes consumed from the input since entry (loop invariant), every trial decoder and the returned decoder are built on a reader that delivers the stream from the position the input had at entry and continues to its end -- nothing consumed while sniffing is lost or replayed.",
-      "Trusted: the reader stubs and the Decoder / DecoderFactory type contracts (a trial decode reads only forward and through the tee). Not covered: that input in none of the formats yields no decoder (acceptance behaviour of the three library decoders), decoder(files) and the encode command loop in package main, transcoding chains (rests on C07's per-codec contracts).",
+      "Trusted: the reader stubs and the Decoder / DecoderFactory type contracts (a trial decode reads only forward and through the tee). DecoderFor returns a decoder only for the format whose trial decoded a record without error (ghost trialOK), so input that no trial accepts yields no decoder; the encode command loop encodes every decoded record exactly once, in order, from a zero destination. Not covered: the acceptance behaviour of the three library decoders themselves (which inputs a trial accepts), transcoding chains (rests on C07's per-codec contracts).",
       "DESIGN.md 8/C08")
 
 claim("C16", PROOF + " (automatic safety obligations + termination variants)",
